@@ -4,7 +4,7 @@
 id=$1; shift
 export GOFLAGS=-mod=mod GOPROXY=off
 wt=/tmp/seed/$id
-echo "== WITH patch"; (cd /tmp/seed/$id.out/demo && eval "$@" 2>&1 | tail -12); 
-git -C $wt apply -R /tmp/seed/$id.out/patch.diff || { echo "cannot reverse patch"; exit 3; }
-echo "== WITHOUT patch"; (cd /tmp/seed/$id.out/demo && eval "$@" 2>&1 | tail -6)
-git -C $wt apply /tmp/seed/$id.out/patch.diff
+echo "== WITH patch"; (cd /tmp/seed/$id.${SEED_SUFFIX:-out}/demo && eval "$@" 2>&1 | tail -12); 
+git -C $wt apply -R /tmp/seed/$id.${SEED_SUFFIX:-out}/patch.diff || { echo "cannot reverse patch"; exit 3; }
+echo "== WITHOUT patch"; (cd /tmp/seed/$id.${SEED_SUFFIX:-out}/demo && eval "$@" 2>&1 | tail -6)
+git -C $wt apply /tmp/seed/$id.${SEED_SUFFIX:-out}/patch.diff
